@@ -194,7 +194,8 @@ class LasHeader:
 
         if version is None and point_format is None:
             version = LasHeader.DEFAULT_VERSION
-            point_format = LasHeader.DEFAULT_POINT_FORMAT
+            # a fresh object: the header's point format is modified by add/remove_extra_dims
+            point_format = PointFormat(LasHeader.DEFAULT_POINT_FORMAT.id)
         elif version is not None and point_format is None:
             point_format = PointFormat(dims.min_point_format_for_version(str(version)))
         elif version is None and point_format is not None:
